@@ -3,7 +3,7 @@ from ..paths import explore, describe, describe_rv, pretty_place, bool_label
 from ..rules import calls_to, calls_where, blocks_of
 from ..facts import callee_path
 
-TEXT = ('Sibling agreement of the wet/dry tail of the five mixing effects (mix clamped to [0,1]; wet·sqrt(mix) + dry·sqrt(1-mix) with dry the unmodified input frame); user parameters reach the stability-critical sinks (tan argument, resonance, q divisors) only through constant-bound clamps; no float division by a value derived from Decibels::as_amplitude (which returns exactly 0.0 at or below -60 dB) without a zero test; may-panic obligations of effect code come from Engine A. Identity, linearity, finiteness and slicing independence as equalities of samples are not decided. Divisions by an amplitude are guarded by a zero test of the very value that divides. Every singular float operation in effect code (division, root, logarithm, power) has its domain proved by interval evaluation or an exact table entry (A.singular). Linearity typing (abstract interpretation of the per-sample code) of filter, EQ filter, delay, reverb, volume and panning control: the input is combined only by sums, differences and products with signal-independent coefficients, no branch tests a signal value, no offset is added; distortion and compressor must come out non-linear (non-vacuity control); with an all-zero input every effect writes exactly zero (silence to silence from a cleared state). Effects do not blend chunk-end parameter values themselves (no Parameter::previous_value); Parameter::new falls back to the default of its own setting. Every effect of every track (also nested ones, also after the track\'s handle is gone) is reached by the per-callback fan-out that lets it poll its commands. The delay uses its scratch buffer only inside the pass (over chunks of the delay line\'s length) that filled it.')
+TEXT = ('Sibling agreement of the wet/dry tail of the five mixing effects (mix clamped to [0,1]; wet·sqrt(mix) + dry·sqrt(1-mix) with dry the unmodified input frame); user parameters reach the stability-critical sinks (tan argument, resonance, q divisors) only through constant-bound clamps; no float division by a value derived from Decibels::as_amplitude (which returns exactly 0.0 at or below -60 dB) without a zero test; may-panic obligations of effect code come from Engine A. Identity, linearity, finiteness and slicing independence as equalities of samples are not decided. Divisions by an amplitude are guarded by a zero test of the very value that divides. Every singular float operation in effect code (division, root, logarithm, power) has its domain proved by interval evaluation or an exact table entry (A.singular). Linearity typing (abstract interpretation of the per-sample code) of filter, EQ filter, delay, reverb, volume and panning control: the input is combined only by sums, differences and products with signal-independent coefficients, no branch tests a signal value, no offset is added; distortion and compressor must come out non-linear (non-vacuity control); with an all-zero input every effect writes exactly zero (silence to silence from a cleared state). Effects do not blend chunk-end parameter values themselves (no Parameter::previous_value); Parameter::new falls back to the default of its own setting. Every effect of every track (also nested ones, also after the track\'s handle is gone) is reached by the per-callback fan-out that lets it poll its commands. The delay uses its scratch buffer only inside the pass (over chunks of the delay line\'s length) that filled it. Effect builders store their arguments unconditionally, effects start their parameters from the configured values, and Value::from_modulator / the mapping operators keep a mapping\'s bounds in place.')
 TECHNIQUE = 'MIR operand-flow (taint) and sibling-agreement rules + effect analysis for panics + linearity typing (abstract interpretation) + interval evaluation of singular float operations'
 
 MIXING = ['effect::filter::Filter', 'effect::delay::Delay', 'effect::reverb::Reverb', 'effect::compressor::Compressor',
